@@ -191,9 +191,11 @@ def _check_case(case, cls, route, V):
 
 
 def _replay_part(args):
-    """Worker: replay one part file of the family table through both construction routes."""
-    path, part, sdir = args
-    cases = json.load(open(path))
+    """Worker: replay a slice of the family case files through both construction routes."""
+    files, part, sdir = args
+    cases = []
+    for fn in files:
+        cases += json.load(open(fn))
     V = []
     feats = collections.Counter()
     nev = 0
@@ -210,9 +212,9 @@ def _replay_part(args):
             sample = {"kind": "spec->code case", "shape": L.shape_str(c["shape"]), "nbits": c["nbits"],
                       "layout": [(".".join(e["path"]), e["lo"], e["hi"]) for e in c["layout"]],
                       "script_steps": len(c["script"])}
+    can = [c for c in cases if len(c["layout"]) >= 2 and len(c["script"]) > 6][:1]
     return {"V": V, "feats": dict(feats), "nev": nev, "n": len(cases), "sample": sample,
-            "shapes": [L.shape_str(c["shape"]) for c in cases],
-            "canary": cases[0] if cases else None}
+            "shapes": [L.shape_str(c["shape"]) for c in cases], "canary": can[0] if can else None}
 
 
 def _report(res, V, prefix=""):
@@ -235,35 +237,26 @@ def _report(res, V, prefix=""):
 
 
 def _family(res, K, exh, sdir):
-    nparts = _ncpu()
     cfg = ("SPECIFICATION Spec\nCONSTANTS MaxNodes = %d\n MaxFields = 3\n Widths = {1, 2, 3}\n ListNs = {1, 2}\n"
-           " NParts = %d\n Part = %d\n ExhBits = %d\n"
-           "INVARIANT ShapeInv\nINVARIANT ObjInv\nINVARIANT NotStuck\nINVARIANT TableIsBehaviour\n"
-           "PROPERTY Frame\nCHECK_DEADLOCK FALSE\n")
-
-    def one(part):
-        out = os.path.join(sdir, "fam_%d.json" % part)
-        r = tlc.run("BitStructMC", cfg_text=cfg % (K, nparts, part, exh), env={"VERIF_OUT": out},
-                    workers=1, timeout=3000, deadlock=False, heap="3g")
-        return part, out, r
-
+           " ExhBits = %d\n"
+           "INVARIANT ShapeInv\nINVARIANT NotStuck\nINVARIANT Complete\nPROPERTY Frame\nCHECK_DEADLOCK FALSE\n")
+    odir = os.path.join(sdir, "family")
+    os.makedirs(odir)
+    r = tlc.run("BitStructMC", cfg_text=cfg % (K, exh), env={"VERIF_OUT": odir}, timeout=6 * 3600,
+                deadlock=False, heap="4g")
+    res.add_tlc(r)
+    if r.violated:
+        res.violation("model:family:K=%d:%s" % (K, sorted(set(r.violated))),
+                      "BitStruct.tla violates %s on a shape of the bounded family" % r.violated, r.out[-3000:])
+        return
+    if not r.ok:
+        raise MachineryError("TLC failed on BitStructMC: %s\n%s" % (r.errors, r.out[-2500:]))
+    files = sorted(os.path.join(odir, f) for f in os.listdir(odir))
+    total_states = r.distinct
+    nparts = _ncpu()
     ctx = multiprocessing.get_context("fork")
-    jobs = []
-    total_states = 0
     with cf.ProcessPoolExecutor(max_workers=nparts, mp_context=ctx) as pp:
-        with cf.ThreadPoolExecutor(max_workers=nparts) as tp:
-            for part, out, r in tp.map(one, range(nparts)):
-                res.add_tlc(r)
-                if r.violated:
-                    res.violation("model:family:K=%d:%s" % (K, sorted(set(r.violated))),
-                                  "BitStruct.tla violates %s on a shape of the bounded family" % r.violated,
-                                  r.out[-3000:])
-                    continue
-                if not r.ok or not os.path.exists(out):
-                    raise MachineryError("TLC failed on BitStructMC part %d: %s\n%s" % (part, r.errors, r.out[-2500:]))
-                total_states += r.distinct
-                jobs.append(pp.submit(_replay_part, (out, part, sdir)))
-        results = [j.result() for j in jobs]
+        results = list(pp.map(_replay_part, [(files[p::nparts], p, sdir) for p in range(nparts)]))
     n = sum(r["n"] for r in results)
     want = L.family_count(K)
     shapes = set()
@@ -272,8 +265,9 @@ def _family(res, K, exh, sdir):
     if not res.violations and (n != want or len(shapes) != want):
         raise MachineryError("family of %d nodes: TLC produced %d cases (%d distinct), expected %d"
                              % (K, n, len(shapes), want))
-    if total_states <= n:
-        raise MachineryError("the script action was never taken in BitStructMC (vacuous)")
+    if total_states < 10 * n:
+        raise MachineryError("the script actions were not taken in BitStructMC (vacuous): %d states for %d shapes"
+                             % (total_states, n))
     V = []
     feats = collections.Counter()
     for r in results:
@@ -819,7 +813,7 @@ def run(res, tier):
                         "random_shapes_max_bits": 1023})
     res.note("rule", "spec->code: every shape of the bounded family (all struct shapes with <= %d shape nodes, "
              "depth <= 3, <= 3 fields, list dims in {1,2}^(1..2), leaf widths 1..3) through both construction "
-             "routes with 5 + #leaves sample values and the 8*#leaves+14 step aliasing script, plus every "
+             "routes with 5 + #leaves sample values and the 8*#leaves+16 step aliasing script, plus every "
              "transition of the object machine for tiny shapes; code->spec: one random history per random shape "
              "(<= 1023 bits, depth <= 4). A case is one distinct shape (family, tiny or random)." % K)
     res.assume("_flip() is only called on objects whose every leaf has a pending value (after <<= and before a "
